@@ -81,6 +81,9 @@ fn main() {
         "gen-lex" => lexfam::gen_lex(&args),
         "gen-total" => totalfam::gen_total(&args),
         "gen-enc" => encfam::gen_enc(&args),
+        "gen-session" => session::gen_session_records(&args),
+        "gen-session-abort" => session::gen_session_abort(&args),
+        "gen-session-alphabet" => session::gen_session_alphabet(&args),
         "gen-binary" => totalfam::gen_binary(&args),
         "gen-roundtrip" => seqfam::gen_roundtrip(&args),
         "gen-heap" => gcfam::gen_heap(&args),
